@@ -47,6 +47,8 @@ RAND_PREFIXES = ("numpy.random.", "random.", "secrets.", "uuid.", "os.urandom", 
                  "time.process_time", "datetime.", "sklearn.")
 
 
+RAND_METHODS = {"normal", "randn", "randint", "choice", "rand", "random", "uniform", "standard_normal", "random_sample", "poisson", "exponential",
+                "permutation", "shuffle", "integers"}
 GV_ROOT = "<gv>"            # pseudo-parameter: the arrays held by the global grid object
 GV_ARRAYS = ("t", "w")
 
@@ -139,6 +141,28 @@ class Effects:
             if not changed:
                 break
         return out
+
+    def _yields_numpy_random(self, node, fi, depth=0):
+        """the expression can evaluate to the numpy.random module (directly, through a conditional, or through a package helper)"""
+        if depth > 3:
+            return False
+        if isinstance(node, ast.Attribute):
+            return self.pkg.resolve_expr(fi.module, fi, node) == "numpy.random"
+        if isinstance(node, ast.IfExp):
+            return self._yields_numpy_random(node.body, fi, depth + 1) or self._yields_numpy_random(node.orelse, fi, depth + 1)
+        if isinstance(node, ast.Name):
+            for n in ast.walk(fi.node):
+                if isinstance(n, ast.Assign) and any(isinstance(t, ast.Name) and t.id == node.id for t in n.targets) and self._yields_numpy_random(n.value, fi, depth + 1):
+                    return True
+            return False
+        if isinstance(node, ast.Call) and isinstance(node.func, ast.Name):
+            r = self.pkg.resolve_name(fi.module, fi, node.func.id)
+            if r and r.startswith(PKG + ".") and r.count(".") == 2:
+                q = r.split(".", 1)[1]
+                callee = self.sum.get(q)
+                if callee is not None:
+                    return any(isinstance(n, ast.Return) and n.value is not None and self._yields_numpy_random(n.value, callee.fi, depth + 1) for n in ast.walk(callee.fi.node))
+        return False
 
     def _copy_flag(self, node, fi):
         """value of a `copy=` argument: True / False when constant in this package, None (may alias) otherwise"""
@@ -810,6 +834,10 @@ class Effects:
         if isinstance(f, ast.Attribute):
             br = self.roots(f.value, fi, s, env, fld)
             name = f.attr
+            if name in RAND_METHODS and self._yields_numpy_random(f.value, fi):
+                # (np.random if rng is None else rng).normal(...) / _source(rng).standard_normal(...): numpy's global generator
+                # unless the caller supplies one
+                s.rand.append(("numpy.random." + name, e))
             if self._is_gv(f.value, fi) or (isinstance(f.value, ast.Name) and self._is_gv(f.value, fi)):
                 pass
             cls = self._class_of(f.value, fi, env)
